@@ -332,6 +332,28 @@ def check_C12(c):
     impl3, model3 = both(reqs3, timeout=900)
     c.add_stream(Stream("EXPR on string-literal source texts", reqs3, impl3, model3, numeric=False))
     n_ok += oracle(reqs3, impl3)
+    # at the nesting limit: wrappers that cost 1–3 levels each around cores whose rendering used to nest deeper than the
+    # source (postfix chains, `x not OP y`); whatever is accepted must still round-trip (expr() must not nest deeper)
+    # (only wrappers that stay in the tree: redundant parentheses vanish from the rendering)
+    wrappers = [("-(c ? %s : b)", 3), ("- %s", 1), ("f(%s)", 1), ("[%s]", 1), ("{1: %s}", 1), ("true ? %s : 0", 1), ("!(%s + 1)", 2)]
+    cores = ["a", "a ++", "a ++ --", "a ++ -- ++ ++", "a not == b", "a not in [b] not == c", "a not == b ++ --", "- a ++ --", "x = y not < z", "a + b * c"]
+    deep = []
+    for _ in range(60 if c.quick() else 2000):
+        x, depth = rng.choice(cores), 1
+        while depth < 112:
+            w, cost = rng.choice(wrappers)
+            x, depth = w % x, depth + cost
+        # … then one level at a time across the limit, so that the deepest accepted source is exactly at it
+        while depth < 140:
+            w, cost = rng.choice([wrappers[1], wrappers[2], wrappers[3]])
+            x, depth = w % x, depth + cost
+            deep.append(x)
+    reqs4 = [expr_req(s_) for s_ in deep]
+    impl4, model4 = both(reqs4, timeout=900)
+    c.add_stream(Stream("EXPR at the nesting limit", reqs4, impl4, model4, numeric=False))
+    n_deep_ok = oracle(reqs4, impl4)
+    c.extra["accepted_at_nesting_limit"] = n_deep_ok
+    n_ok += n_deep_ok
     # AST-direct: trees the parser can produce, built through the public enum
     ag = G.AstGen(rng.fork(), table, max_depth=5)
     asts = [ag.program() for _ in range(5000 if c.quick() else 100000)]
